@@ -172,7 +172,15 @@ Definition attribution (t : tables) (c : c15_case) : N :=
     else if same_on_univ (obs_of (c_pub c)) (pub_of (m_final t false current true c))
             || same_on_univ (obs_of (c_pub c)) (pub_of (m_final t false current false c)) then 0
     else if same_on_univ (obs_of (c_pub c)) (pub_of (m_racy t false current c)) then 16 else 0 in
-  bit 0%nat 1 + bit 1%nat 2 + bit 2%nat 4 + bit 3%nat 8 + racy
+  (* bursts: do both extreme job-atomic schedules converge in the model of the current code?  Then (theorem
+     converges_job_atomic_partial, for parse-failure-free histories) every job-atomic schedule does, and an
+     observed divergence can only come from an interleaving that is not job-atomic *)
+  let atomic_ok :=
+    if c_step c then 0
+    else let e := m_final t false current true c in
+         let l := m_final t false current false c in
+         if same_on_univ (pub_of e) (fresh_of t e) && same_on_univ (pub_of l) (fresh_of t l) then 32 else 0 in
+  bit 0%nat 1 + bit 1%nat 2 + bit 2%nat 4 + bit 3%nat 8 + racy + atomic_ok
   + (if same_on_univ (pub_of allr) (fresh_of t allr) then 0 else 64).
 
 (* ---- phase 1: which oracle keys do the predictions depend on ---- *)
